@@ -100,6 +100,21 @@ CLAIMS = {
              "decide minimality/productivity of the extracted set.",
         note="Trusted: ast. Partial by design.",
     ),
+    "C12": dict(
+        technique="writer/reader convention agreement by side inference (data flow from parameter positions), inverse-data and argument-order rules, release-on-every-exit pairing",
+        design="DESIGN.md section 4 (C12), engine B",
+        text="Static analysis of necessary structural clauses of the matcher and the parse-tree transport, not of the transported "
+             "objects: the permutation recorded per matched pair is written as perm[position in spec 2] = position in spec 1 under the "
+             "key (node of spec 1, node of spec 2) and read with the same convention and key orientation; the inverse order map is the "
+             "inverse permutation under the swapped key and map / inverse_map hand over all-forward or all-inverse (domain, codomain, "
+             "order map, index data); both sides skip exactly the empty children; the backtracking offers every unused position once "
+             "and stores a permutation only when complete; ancestors and the path tracker are released on every exit; base cases "
+             "(arity, leaves = two atoms that agree, constructors before recursion) and the one-sided equivalence steps are wired "
+             "alike on both sides; the JSON maps keep the orientation; the derived rules' maps use the same slot both ways. Does NOT "
+             "decide that the image is the right object (needs the strategies' own maps) nor reflexivity / symmetry as such.",
+        note="Trusted: ast, side inference (the side of an index is the position of the recursive call's argument it occurs in). "
+             "Assumes strategy maps are mutually inverse and constructor.equiv is an equivalence relation.",
+    ),
     "C13": dict(
         technique="label-kind abstract interpretation (root identity between extractor and specification)",
         design="DESIGN.md section 4 (C13), engine K",
@@ -173,8 +188,6 @@ NOT_APPLICABLE = {
            "no sound static argument bounds those values; its structural necessary conditions are claimed under C04/C07/C09/C10.",
     "C02": "Closure/productivity are facts about the rule set a particular search produced (reachability and a fixed point "
            "over runtime data); no all-paths code shape decides them. The one structural hazard (extractor root) is decided under C13.",
-    "C12": "Object-level equalities through recursive parse-tree walks and a backtracking matcher are value-level; the only "
-           "shape facts are exercised by every existing bijection test.",
 }
 
 
